@@ -135,7 +135,6 @@ def run_case(case, st=None):
     if not case.get("no_carve"):
         # dynamic input predicates (decided by the reference run on the input alone, before rdflib is consulted)
         if R.STATS["str_of_bnode"]: carve.append("C04-T8-str-of-bnode")
-        if R.STATS["float_arithmetic"]: carve.append("C04-T9-float-arithmetic")
         for c in carve: st.setdefault("_known", {})[c] = 1
     if carve:
         st["carved"] = st.get("carved", 0) + 1
